@@ -58,7 +58,7 @@ Proof.
   intros HK Hk H. rewrite (element_id_pack k r v Hk H). apply conv_element_pack; assumption.
 Qed.
 
-(* For the record: the guard the code had before the repair (fix commit 8da90bd in /repo) was the
+(* For the record: the guard the code had before the repair (fix commit 8024a58 in /repo) was the
    subset test  id & mask != mask .  relationMask = nodeMask | wayMask, so a relation id passed
    the node test and the way test: a relation decoded as a node. *)
 Definition old_guard_passes (mask id : Z) : bool := Z.land id mask =? mask.
